@@ -156,28 +156,54 @@ inductive Find where
   | err
 deriving Repr, DecidableEq, Inhabited
 
-def checkSlot (forWriting : Bool) (buf : Block) (id : List Nat) (off : Nat) : Option Find :=
+/-- one slot of the probe sequence: `some` when the slot carries the id (decoded, or a decode error), `none` when it
+is empty or carries another id -/
+def checkSlot (buf : Block) (id : List Nat) (off : Nat) : Option Find :=
   let hbuf := slotAt buf off
-  if isZero hbuf then (if forWriting then some (.free off) else none)
+  if isZero hbuf then none
   else if hbuf.take 16 == id then
     match decode hbuf with
     | some h => some (.found off h)
     | none => some .err
   else none
 
-/-- the `for range handlesPerBlock` scan: one iteration per slot, the ideal slot skipped -/
-def scan (forWriting : Bool) (buf : Block) (id : List Nat) (ideal : Nat) : Nat → Nat → Find
-  | 0, _ => .nextSegment
+/-- the `for range handlesPerBlock` scan for the id: one iteration per slot, the ideal slot skipped -/
+def scan (buf : Block) (id : List Nat) (ideal : Nat) : Nat → Nat → Option Find
+  | 0, _ => none
   | k + 1, bao =>
-    if bao = ideal then scan forWriting buf id ideal k (bao + Facts.handleSizeInBytes)
-    else match checkSlot forWriting buf id bao with
-      | some r => r
-      | none => scan forWriting buf id ideal k (bao + Facts.handleSizeInBytes)
+    if bao = ideal then scan buf id ideal k (bao + Facts.handleSizeInBytes)
+    else match checkSlot buf id bao with
+      | some r => some r
+      | none => scan buf id ideal k (bao + Facts.handleSizeInBytes)
 
+/-- the first empty slot in the same order (`hole`, remembered while the search for the id goes on) -/
+def scanHole (buf : Block) (ideal : Nat) : Nat → Nat → Option Nat
+  | 0, _ => none
+  | k + 1, bao =>
+    if bao = ideal then scanHole buf ideal k (bao + Facts.handleSizeInBytes)
+    else if isZero (slotAt buf bao) then some bao
+    else scanHole buf ideal k (bao + Facts.handleSizeInBytes)
+
+def firstHole (buf : Block) (ideal : Nat) : Option Nat :=
+  if isZero (slotAt buf ideal) then some ideal else scanHole buf ideal Facts.handlesPerBlock 0
+
+/-- `findOneFileRegion` inside the block (code after the fix "registry write probe looks for the id along the
+whole probe sequence before reusing a hole"): the ideal slot, then every other slot in order, is searched for the
+id; only when the id is nowhere and the call is for writing, the first empty slot met on the way is returned
+(the next segment file does not exist in this model: reading gives "not found", writing with no hole leaves the
+model). -/
 def findInBlock (forWriting : Bool) (buf : Block) (id : List Nat) (ideal : Nat) : Find :=
-  match checkSlot forWriting buf id ideal with
+  let hit := match checkSlot buf id ideal with
+    | some r => some r
+    | none => scan buf id ideal Facts.handlesPerBlock 0
+  match hit with
   | some r => r
-  | none => scan forWriting buf id ideal Facts.handlesPerBlock 0
+  | none =>
+    if forWriting then
+      match firstHole buf ideal with
+      | some off => .free off
+      | none => .nextSegment
+    else .nextSegment
 
 /-- big-endian value of the low half of a UUID (`UUID.Split`) -/
 def ofBE (bs : List Nat) : Nat := bs.foldl (fun acc b => acc * 256 + b) 0
@@ -293,6 +319,201 @@ def getOpFixed (P : Params) := getOpW (readAndRestoreFixed P)
 def setOpFixed (P : Params) := setOpW P (readAndRestoreFixed P)
 def addOpFixed (P : Params) := addOpW P (readAndRestoreFixed P)
 def rmOpFixed (P : Params) := rmOpW P (readAndRestoreFixed P)
+
+/-! ## Several actors on one block: the per-block lock, the backup file and the block as shared state
+
+An *actor* is one registry call (`Get`, `UpdateNoLocks`, `Add`, `Remove` of one handle) running in its own process.
+The shared state is the block, its backup file and the cache-backed per-block lock (`lockFileBlockRegion`). The
+program counter of an actor stops wherever the code touches shared state, one step per file / lock operation:
+
+* phase A, NOT under the lock — `findOneFileRegion → readAndRestoreBlock`: block read; checksum, then `deleteCow`
+  (valid) or `checkCow` (invalid); restoring block write. From the buffer the registry picks the slot (`plan`).
+* phase B — `updateFileBlockRegion`: `DualLock` (refused → `RandomSleep` → again); `readAndRestoreBlock` as above;
+  `createCow` (`os.WriteFile`: open/truncate, then fill); the block write in two pieces `[0,cut)`, `[cut,n)`;
+  `deleteCow`; `Unlock` (deferred).
+
+`late = true` is the variant "release the lock right after the block write, delete the backup afterwards"
+(NOT what the code does; kept to show that the proof distinguishes it). -/
+
+inductive WOp where
+  | get (id : List Nat)               -- `Get`: the unlocked block check only
+  | set (h : Handle)                  -- `UpdateNoLocks`
+  | add (h : Handle)                  -- `Add`
+  | rm (id : List Nat)                -- `Remove`
+  | raw (off : Nat) (rec : List Nat)  -- `updateFileBlockRegion(off, rec)` entered directly
+deriving Repr, DecidableEq, Inhabited
+
+/-- what the registry operation makes of the buffer its unlocked block check produced: an answer, or the slot
+offset and record bytes it calls `updateFileBlockRegion` with (same branches as `setOpW`/`addOpW`/`rmOpW`) -/
+def plan (op : WOp) (buf : Block) : OpRes ⊕ (Nat × List Nat) :=
+  match op with
+  | .get id => .inl (lookup buf id)
+  | .raw off rec => .inr (off, rec)
+  | .set h =>
+    match findInBlock true buf h.lid (idealOff h.lid) with
+    | .err => .inl .err
+    | .nextSegment => .inl .elsewhere
+    | .found off h0 => if !hEmpty h0 && h0.lid != h.lid then .inl .err else .inr (off, encode h)
+    | .free off => .inr (off, encode h)
+  | .add h =>
+    match findInBlock true buf h.lid (idealOff h.lid) with
+    | .err => .inl .err
+    | .nextSegment => .inl .elsewhere
+    | .found off h0 => if hEmpty h0 then .inr (off, encode h) else .inl .spin
+    | .free off => .inr (off, encode h)
+  | .rm id =>
+    match findInBlock true buf id (idealOff id) with
+    | .err => .inl .err
+    | .nextSegment => .inl .elsewhere
+    | .free _ => .inl .err
+    | .found off h0 =>
+      if hEmpty h0 then .inl .err
+      else if h0.lid != id then .inl .err
+      else .inr (off, List.replicate Facts.handleSizeInBytes 0)
+
+inductive WPc where
+  | aRead | aHave | aRestore | aRestored        -- phase A: before/after `readAt`, before/after the restoring `writeAt`
+  | lockPre | lockNo | lockOk                    -- before `DualLock`; refused; granted
+  | bRead | bHave | bRestore | bRestored         -- phase B `readAndRestoreBlock`
+  | cowNew | cowFill                             -- `createCow`: before open/truncate; before the content is written
+  | wPre | wMid | wPost                          -- the block write: before, between its two pieces, after
+  | uPre | uPost                                 -- before / after `Unlock`
+  | done
+deriving Repr, DecidableEq, Inhabited
+
+structure Actor where
+  op : WOp := .get []
+  /-- where the block write is split (a crash or another actor can see the first `cut` bytes only) -/
+  cut : Nat := 0
+  pc : WPc := .aRead
+  dead : Bool := false
+  buf : Block := []
+  off : Nat := 0
+  rcd : List Nat := []
+  img : Block := []
+  res : Option OpRes := none
+deriving Repr, DecidableEq, Inhabited
+
+structure Shared where
+  disk : Disk
+  /-- holder of the block lock -/
+  lock : Option Nat := none
+deriving Repr, DecidableEq, Inhabited
+
+/-- end of phase A: answer, or go for the lock with the slot chosen from `buf` -/
+def Actor.afterFind (a : Actor) (buf : Block) : Actor :=
+  match plan a.op buf with
+  | .inl r => { a with pc := .done, buf := buf, res := some r }
+  | .inr (off, rec) => { a with pc := .lockPre, buf := buf, off := off, rcd := rec }
+
+/-- one step of actor number `me` -/
+def Actor.step (P : Params) (late : Bool) (me : Nat) (a : Actor) (s : Shared) : Actor × Shared :=
+  let d := s.disk
+  match a.pc with
+  | .aRead =>
+    if d.blk.length ≠ P.n then ({ a with pc := .done, res := some .err }, s)
+    else ({ a with pc := .aHave, buf := d.blk }, s)
+  | .aHave =>
+    if valid P a.buf then (a.afterFind a.buf, { s with disk := { d with cow := none } })
+    else
+      let (data, shouldRestore) := checkCow P d.cow
+      if shouldRestore then
+        if data.length = 0 then (a.afterFind a.buf, s)
+        else ({ a with pc := .aRestore, buf := data }, s)
+      else (a.afterFind a.buf, s)
+  | .aRestore => ({ a with pc := .aRestored }, { s with disk := { d with blk := a.buf } })
+  | .aRestored => (a.afterFind a.buf, s)
+  | .lockPre =>
+    match s.lock with
+    | none => ({ a with pc := .lockOk }, { s with lock := some me })
+    | some _ => ({ a with pc := .lockNo }, s)
+  | .lockNo => ({ a with pc := .lockPre }, s)
+  | .lockOk => ({ a with pc := .bRead }, s)
+  | .bRead =>
+    if d.blk.length ≠ P.n then ({ a with pc := .uPre, res := some .err }, s)   -- error return, deferred unlock
+    else ({ a with pc := .bHave, buf := d.blk }, s)
+  | .bHave =>
+    if valid P a.buf then ({ a with pc := .cowNew }, { s with disk := { d with cow := none } })
+    else
+      let (data, shouldRestore) := checkCow P d.cow
+      if shouldRestore then
+        if data.length = 0 then ({ a with pc := .cowNew }, s)
+        else ({ a with pc := .bRestore, buf := data }, s)
+      else ({ a with pc := .cowNew }, s)                                        -- unverified buffer used (C23)
+  | .bRestore => ({ a with pc := .bRestored }, { s with disk := { d with blk := a.buf } })
+  | .bRestored => ({ a with pc := .cowFill }, { s with disk := { d with cow := some [] } })
+  | .cowNew => ({ a with pc := .cowFill }, { s with disk := { d with cow := some [] } })
+  | .cowFill =>
+    -- the content goes to the file opened by the previous step: if somebody unlinked it meanwhile it is lost
+    ({ a with pc := .wPre, img := newImage P a.buf a.off a.rcd },
+     { s with disk := { d with cow := d.cow.map fun _ => a.buf } })
+  | .wPre => ({ a with pc := .wMid }, { s with disk := { d with blk := a.img.take a.cut ++ d.blk.drop a.cut } })
+  | .wMid => ({ a with pc := .wPost }, { s with disk := { d with blk := d.blk.take a.cut ++ a.img.drop a.cut } })
+  | .wPost =>
+    if late then ({ a with pc := .uPre, res := some .ok }, s)
+    else ({ a with pc := .uPre, res := some .ok }, { s with disk := { d with cow := none } })
+  | .uPre => ({ a with pc := .uPost }, { s with lock := if s.lock = some me then none else s.lock })
+  | .uPost =>
+    if late && a.res == some .ok then ({ a with pc := .done }, { s with disk := { d with cow := none } })
+    else ({ a with pc := .done }, s)
+  | .done => (a, s)
+
+structure Sys where
+  sh : Shared
+  as : Nat → Actor
+
+inductive Ev where
+  | step (i : Nat)
+  /-- the process of actor `i` dies where it is (its lock stays until it expires) -/
+  | kill (i : Nat)
+  /-- actor `i`, about to start the block write, instead died inside `os.WriteFile` of the backup after `k` bytes -/
+  | killCow (i k : Nat)
+  /-- the lock of a dead holder expires (`LockFileRegionDuration`) -/
+  | expire
+deriving Repr, DecidableEq, Inhabited
+
+def Sys.setActor (s : Sys) (i : Nat) (a : Actor) (sh : Shared) : Sys :=
+  ⟨sh, fun j => if j = i then a else s.as j⟩
+
+def Sys.ev (P : Params) (late : Bool) (s : Sys) : Ev → Sys
+  | .step i =>
+    if (s.as i).dead then s
+    else let r := (s.as i).step P late i s.sh; s.setActor i r.1 r.2
+  | .kill i => s.setActor i { s.as i with dead := true } s.sh
+  | .killCow i k =>
+    if (s.as i).pc = .wPre ∧ (s.as i).dead = false then
+      s.setActor i { s.as i with dead := true, pc := .cowFill }
+        { s.sh with disk := { s.sh.disk with cow := s.sh.disk.cow.map fun c => c.take k } }
+    else s
+  | .expire =>
+    match s.sh.lock with
+    | some h => if (s.as h).dead then ⟨{ s.sh with lock := none }, s.as⟩ else s
+    | none => s
+
+def Sys.run (P : Params) (late : Bool) : Sys → List Ev → Sys
+  | s, [] => s
+  | s, e :: es => Sys.run P late (s.ev P late e) es
+
+/-! ### the granularity at which the harness observes an actor
+
+The harness parks an actor before and after every call that goes through a seam of the repository (`DirectIO`
+block read / block write, `L2Cache.DualLock` / `Unlock`); `createCow` goes through no seam, so an actor cannot be
+stopped at `cowNew` / `cowFill`. The harness cuts a block write in two pieces only when the actor's last block read
+passed the checksum (otherwise it cannot tell the write from a restoring one and writes it in one piece). -/
+
+def WPc.isPark : WPc → Bool
+  | .cowNew | .cowFill => false
+  | _ => true
+
+/-- let actor `i` run to its next park -/
+def Sys.go (P : Params) (late : Bool) (s : Sys) (i : Nat) : Sys :=
+  let a := s.as i
+  let s1 := s.ev P late (.step i)
+  if a.pc = .wPre ∧ valid P a.buf = false then s1.ev P late (.step i)
+  else if (s1.as i).pc.isPark then s1
+  else
+    let s2 := s1.ev P late (.step i)
+    if (s2.as i).pc.isPark then s2 else s2.ev P late (.step i)
 
 /-! ## Concrete CRC-32 (IEEE 802.3, reflected, as `hash/crc32.ChecksumIEEE`) -/
 
